@@ -331,10 +331,8 @@ Proof.
   rewrite (unescape_encode _ _ W); [apply decode_chain|]. rewrite decode_chain. apply nl_to_space_no_nl.
 Qed.
 
-(* and no inline marker pair is left to be read as markup *)
-Theorem escape_inlines_no_live_marker s : has_live (escape_inlines s) = false.
+Lemma chain_units_no_live s : ulive (chain_units s) = false.
 Proof.
-  destruct (escape_inlines_units s) as [-> W]. rewrite (has_live_encode _ _ W).
   apply ulive_no_pairs. intros y Hy. unfold chain_units.
   set (u0 := esc_bs (nl_to_space s)).
   assert (M : forall z us, no_pair y us = true -> no_pair y (pair_esc z us) = true)
@@ -345,4 +343,10 @@ Proof.
   destruct (y =? 95) eqn:E3; [apply N.eqb_eq in E3; subst; do 2 apply M; apply pair_esc_no_pair|].
   destruct (y =? 123) eqn:E4; [apply N.eqb_eq in E4; subst; apply M; apply pair_esc_no_pair|].
   destruct (y =? 125) eqn:E5; [apply N.eqb_eq in E5; subst; apply pair_esc_no_pair|discriminate].
+Qed.
+
+(* and no inline marker pair is left to be read as markup *)
+Theorem escape_inlines_no_live_marker s : has_live (escape_inlines s) = false.
+Proof.
+  destruct (escape_inlines_units s) as [-> W]. rewrite (has_live_encode _ _ W). apply chain_units_no_live.
 Qed.
